@@ -279,23 +279,101 @@ Definition msg_stage (k : kind) (s : mstate) (b : bytes) : sres mstate (option m
 Definition init_carry : carry := {| cy_parms := None; cy_trails := None |}.
 Definition init_state : pstate mstate := Live (start_state init_carry) [].
 
-(* connection closed: .close() then one more parse() *)
+(* ------------------------------------------------------- parsing while .closed *)
+(* One step of the parser when .closed is True.  Closure only matters once the
+   buffer has run dry: "if self.closed and not self.msg" precedes every
+   next(lineParser / leaderParser / chunkParser) (Requestant after e09ff21 as
+   Respondent), a data chunk that empties the buffer ends a chunked message, a
+   close-delimited body ends, a request's fixed-length body that is not complete
+   raises.  PrematureClosure is an HTTPException. *)
+Definition msg_stage_closed (k : kind) (s : mstate) (b : bytes) : sres mstate (option msg) :=
+  let cy := m_carry s in
+  match m_phase s with
+  | PStart cont =>
+    if is_nil b then (match k with Resp _ => if cont then Fail HTTPExc else Need | Req => Need end)
+    else msg_stage k s b
+  | PContinue _ | PLeader _ _ => if is_nil b then Fail HTTPExc else msg_stage k s b
+  | PChunk hd cs body p =>
+    if is_nil b then Fail HTTPExc else
+    match chunk_stage cs b with
+    | Need => Need
+    | Fail e => Fail e
+    | Step cs' r None => Step {| m_phase := PChunk hd cs' body p; m_carry := cy |} r None
+    | Step cs' r (Some ch) =>
+      let p' := dupdate p (k_parms ch) in
+      if N.eqb (k_size ch) 0 then
+        let cy' := {| cy_parms := Some p';
+                      cy_trails := if is_nil (k_trails ch) then cy_trails cy else Some (k_trails ch) |} in
+        Step (start_state cy') r (Some (finish_msg hd cy' body))
+      else if is_nil r then      (* "if self.closed and not self.msg: break": no more data so finish *)
+        let cy' := {| cy_parms := Some p'; cy_trails := cy_trails cy |} in
+        Step (start_state cy') r (Some (finish_msg hd cy' (body ++ k_data ch)))
+      else Step {| m_phase := PChunk hd CSize (body ++ k_data ch) p'; m_carry := cy |} r None
+    end
+  | PFixed hd n =>
+    if N.ltb (lenN b) n then
+      (match k with Req => Fail HTTPExc | Resp _ => if is_nil b then Fail HTTPExc else Need end)
+    else msg_stage k s b
+  | PUntil hd rbody =>
+    match b with
+    | [] => Step (start_state cy) [] (Some (finish_msg hd cy (frev rbody)))
+    | x :: b' => Step {| m_phase := PUntil hd (x :: rbody); m_carry := cy |} b' None
+    end
+  end.
+
+(* parse() until quiescent with .closed True.  parseMessage resets .closed when
+   the next message starts, so after a message completes the rest of the buffer
+   is parsed as usual.  Returns also whether .closed is still set. *)
+Fixpoint run_c (k : kind) (fuel : nat) (s : mstate) (b : bytes) : pstate mstate * list (option msg) * bool :=
+  match fuel with
+  | 0 => (Live s b, [], true)
+  | S f =>
+    match msg_stage_closed k s b with
+    | Need => (Live s b, [], true)
+    | Fail e => (Dead e, [], true)
+    | Step s' b' (Some m) => let (p, os) := run (msg_stage k) f s' b' in (p, Some m :: os, false)
+    | Step s' b' None => let '(p, os, c) := run_c k f s' b' in (p, None :: os, c)
+    end
+  end.
+
+(* connection closed after everything received was parsed: .close() then parse() *)
 Definition close_msg (k : kind) (p : pstate mstate) : pstate mstate * list (option msg) :=
   match p with
   | Dead e => (Dead e, [])
-  | Live s b =>
-    let cy := m_carry s in
-    match k, m_phase s with
-    | Req, PStart _ => if is_nil b then (p, []) else (Dead HTTPExc, [])
-    | Req, PLeader _ _ => (Dead HTTPExc, [])
-    | Req, PFixed _ _ => (Dead HTTPExc, [])
-    | Req, _ => (p, [])                       (* chunked request body: no test inside the chunk loop *)
-    | Resp _, PStart cont => if cont && is_nil b then (Dead HTTPExc, []) else (p, [])
-    | Resp _, PUntil hd rbody =>
-      (Live (start_state cy) b, [Some (finish_msg hd cy (frev rbody))])
-    | Resp _, _ => if is_nil b then (Dead HTTPExc, []) else (p, [])
+  | Live s b => let '(p', os, _) := run_c k (S (S (length b))) s b in (p', os)
+  end.
+
+(* Histories in which bytes arrive, the parser is stepped and the connection is
+   closed in any order. *)
+Inductive op :=
+| OData (c : bytes)    (* msg.extend(c): bytes received, parser not yet stepped *)
+| OParse               (* parse() until it yields None / raises; makeParser() after every ended message *)
+| OClose.              (* .close() *)
+
+Record hstate := { hs_p : pstate mstate; hs_closed : bool; hs_fresh : bool; hs_out : list (option msg) }.
+Definition hs_init : hstate := {| hs_p := init_state; hs_closed := false; hs_fresh := true; hs_out := [] |}.
+
+Definition do_op (k : kind) (h : hstate) (o : op) : hstate :=
+  match o with
+  | OData c =>
+    {| hs_p := match hs_p h with Live s b => Live s (b ++ c) | Dead e => Dead e end;
+       hs_closed := hs_closed h; hs_fresh := hs_fresh h; hs_out := hs_out h |}
+  | OClose => {| hs_p := hs_p h; hs_closed := true; hs_fresh := hs_fresh h; hs_out := hs_out h |}
+  | OParse =>
+    (* the first step of a parseMessage generator sets .closed = False *)
+    let closed := if hs_fresh h then false else hs_closed h in
+    match hs_p h with
+    | Dead e => {| hs_p := Dead e; hs_closed := closed; hs_fresh := false; hs_out := hs_out h |}
+    | Live s b =>
+      if closed then
+        let '(p, os, c) := run_c k (S (S (length b))) s b in
+        {| hs_p := p; hs_closed := c; hs_fresh := false; hs_out := hs_out h ++ os |}
+      else
+        let (p, os) := run (msg_stage k) (S (length b)) s b in
+        {| hs_p := p; hs_closed := false; hs_fresh := false; hs_out := hs_out h ++ os |}
     end
   end.
+Definition run_ops (k : kind) (ops : list op) : hstate := fold_left (do_op k) ops hs_init.
 
 (* feed all reads, optionally close *)
 Definition run_case (k : kind) (reads : list bytes) (close : bool) : pstate mstate * list msg :=
@@ -341,6 +419,28 @@ Definition check_case (c : case) : bool :=
   | (Dead e, ms) => msgs_eqb ms (c_msgs c) && option_eqb exn_eqb (Some e) (c_err c)
   | (Live s b, ms) => msgs_eqb ms (c_msgs c) && option_eqb exn_eqb None (c_err c) && bytes_eqb b (c_left c)
   end.
+
+(* a history case *)
+Record hcase := {
+  h_kind : kind;
+  h_ops : list op;
+  h_msgs : list omsg;
+  h_err : option exn;
+  h_left : bytes
+}.
+Definition check_hcase (c : hcase) : bool :=
+  let h := run_ops (h_kind c) (h_ops c) in
+  match hs_p h with
+  | Dead e => msgs_eqb (somes (hs_out h)) (h_msgs c) && option_eqb exn_eqb (Some e) (h_err c)
+  | Live s b => msgs_eqb (somes (hs_out h)) (h_msgs c) && option_eqb exn_eqb None (h_err c) && bytes_eqb b (h_left c)
+  end.
+
+(* the C17 check drives parseChunk directly and through both message parsers *)
+Inductive c17case := KChunk (c : Chunk.case) | KHist (c : hcase).
+Definition check_c17 (c : c17case) : bool :=
+  match c with KChunk c => Chunk.check_case c | KHist c => check_hcase c end.
+Definition c17_branches (c : c17case) : list nat :=
+  match c with KChunk c => Chunk.case_branches c | KHist _ => [] end.
 
 (* branch ids for generator coverage *)
 Definition n_branches : nat := 16.
